@@ -1,0 +1,13 @@
+//! Hooks into `cmd` (child module: sees its private items).
+
+use ant_protocol::NetworkAddress;
+use libp2p::PeerId;
+
+/// Pass-through to the private `get_peers_in_range`.
+pub fn get_peers_in_range(
+    peers: &[PeerId],
+    address: &NetworkAddress,
+    range: ant_evm::U256,
+) -> Vec<PeerId> {
+    super::get_peers_in_range(peers, address, range)
+}
